@@ -196,6 +196,16 @@ def corpus():
     out.append({"name": "setdata-merge", "fixture": fixture(0, 0), "expect": expect_table(0, 0), "steps": [
         ["ws", "A"], J("A", "pr"), S, ["ws", "B"], J("B", "ms"), S, SD("A", {"raisehand": True}), S, SD("A", {"mood": "happy"}), S,
         ["ws", "C"], J("C", "ob"), S, SD("A", {"raisehand": None}), S, ["ws", "D"], J("D", "op"), S, SD("B", {"x": 1}), S, SD("B", {"y": [1, 2]}), S, S]})
+    # two changes of one member in quick succession: each is broadcast by its own detached goroutine; the first one is held back
+    # (hook rtpconn.changeBroadcast, delayed in the server child) so that the second overtakes it -- every view must still end up
+    # with the LAST state
+    UA = lambda c, k, d: ["send", c, {"type": "useraction", "kind": k, "dest": d}]
+    out.append({"name": "racing-change-broadcasts-permissions", "fixture": fixture(0, 0), "expect": expect_table(0, 0), "delay": "rtpconn.changeBroadcast:1:400", "pipelined": True, "steps": [
+        ["ws", "A"], J("A", "op"), S, ["ws", "B"], J("B", "pr"), S, ["ws", "C"], J("C", "pr"), S, ["ws", "D"], J("D", "ms"), S,
+        UA("A", "op", "B"), ["sleep", 60], UA("A", "unop", "B"), ["sleep", 900], S, S]})
+    out.append({"name": "racing-change-broadcasts-setdata", "fixture": fixture(0, 0), "expect": expect_table(0, 0), "delay": "rtpconn.changeBroadcast:1:400", "pipelined": True, "steps": [
+        ["ws", "A"], J("A", "op"), S, ["ws", "B"], J("B", "pr"), S, ["ws", "C"], J("C", "pr"), S,
+        SD("B", {"hand": "up"}), ["sleep", 60], SD("B", {"hand": "down"}), ["sleep", 900], S, ["ws", "E"], J("E", "ob"), S, S]})
     # a token whose username is present but empty, presented without a username; a token without username
     tk = lambda i, extra: json.dumps(dict({"token": i, "group": "g", "permissions": ["present"], "expires": "2099-01-01T00:00:00Z"}, **extra)) + "\n"
     out.append({"name": "token-empty-username", "fixture": fixture(0, 0, extra_files={"data/var/tokens.jsonl": tk("tokE", {"username": ""}) + tk("tokN", {}) + tk("tokU", {"username": "tu"})}),
